@@ -184,7 +184,7 @@ def run_case(case):
     Dataset, SS, CF = _impl["Dataset"], _impl["SS"], _impl["CF"]
     rec = dict(case)
     rec.update(out="", K=[], dup=0, starts2=[], rep=[0, 0, "absent"], rep0=[0, 0, "absent"], opt=0, starts=[], auxcalls=0,
-               wpart=[], pred="", complete=0, cop={"s2": [], "ved": []}, desc=0)
+               wpart=[], pred="", complete=0, cop={"s2": [], "ved": []}, desc=0, ids=[])
     B, T, unit = case["sch"]
     # optional second limb: the scheme given to the library is H * (B, T) + (B2, T2), far beyond TLC's 32-bit integers;
     # TLC evaluates the two limbs separately (the score is linear in the penalties) and compares pairs
@@ -316,6 +316,13 @@ def run_case(case):
         rec["pred"] = "true" if p is True else "false" if p is False else "exc:NotBool"
     except Exception as ex:
         rec["pred"] = "exc:" + type(ex).__name__
+    try:
+        # the numbering of the elements by the dataset (public mapping): per abstract element 1..max, -1 when absent
+        inv = {am.elem(e): int(i) for e, i in ds.mapping_elem_id.items()}
+        top = max((x for r in rec["D"] for b in r for x in b), default=0)
+        rec["ids"] = [inv.get(x, -1) for x in range(1, top + 1)]
+    except Exception:
+        rec["ids"] = []
     try:
         if case["cfg"] == "HandBuilt":
             from corankco.consensus import Consensus
